@@ -122,7 +122,8 @@ class Gen:
                               # d1.items is still the dict method
                               ["filter", ["filter", ["call", ["attr", N("d1"), "items"], [], []], "list", [], []],
                                "length", [], []],
-                              ["call", ["attr", N("d1"), "get"], [C(self.pick(["a", "items", "zz"])), self.int_(0)], []]])
+                              ["call", ["attr", N("d1"), "get"], [C(self.pick(["a", "items", "zz"])), self.int_(0)], []],
+                              ["filter", N("o1"), "attr", [C("both")], []]])
         if k < 0.88:
             return ["filter", self.undef_(d - 1), "default", [self.int_(d - 1)], []]
         if k < 0.92:
@@ -314,8 +315,11 @@ class Gen:
             return ["item", N("l1"), C(99)]
         if k < 0.85:
             return ["cond", self.int_(0), C(False), None]
-        if k < 0.93:
+        if k < 0.9:
             return ["attr", N("o1"), "zz"]
+        if k < 0.96:
+            # |attr never looks items up: d1 HAS the keys a / k, no such attributes
+            return ["filter", N("d1"), "attr", [C(self.pick(["a", "k", "nope"]))], []]
         return ["item", N("d1"), C(0)]
 
     def defined_any(self, d):
